@@ -54,12 +54,13 @@ C18_RULES = ['not_not', 'implies', 'implies_pos', 'implies_neg1', 'implies_neg2'
              'equiv_pos1', 'equiv_pos2', 'equiv_neg1', 'equiv_neg2', 'ite_pos1', 'ite_pos2', 'ite_neg1', 'ite_neg2',
              'xor_pos1', 'xor_pos2', 'xor_neg1', 'xor_neg2', 'not_implies1', 'not_implies2', 'not_equiv1',
              'not_equiv2', 'equiv1', 'equiv2', 'ite1', 'ite2', 'not_ite1', 'not_ite2',
-             'and', 'or', 'or_neg', 'not_or', 'or_pos', 'eq_reflexive']
+             'and', 'or', 'or_neg', 'not_or', 'or_pos', 'eq_reflexive', 'and_pos', 'and_neg', 'contraction']
 C18_HELPERS = ['kernel.term.Or', 'kernel.term.And', 'kernel.term.Term.strip_disj', 'kernel.term.Term.strip_conj',
                'smt.veriT.verit_macro.strip_disj_n']
 C18_LEMMAS = ['lemma:pv_disj_of', 'lemma:pv_conj_of', 'lemma:slice_tail', 'lemma:pv_sdl', 'lemma:pv_scl',
               'lemma:pv_anyl_at', 'lemma:pv_anyl_any', 'lemma:pv_alll_all', 'lemma:pv_sd0', 'lemma:pv_sc0',
-              'lemma:pv_anyl0', 'lemma:pv_anyl_cons', 'lemma:pv_any_at', 'lemma:pv_all_at', 'lemma:sem_equiv_pos2', 'lemma:pv_any_tail']
+              'lemma:pv_anyl0', 'lemma:pv_anyl_cons', 'lemma:pv_any_at', 'lemma:pv_all_at', 'lemma:sem_equiv_pos2', 'lemma:pv_any_tail',
+              'lemma:pv_alll_mem', 'lemma:pv_anyl_mem', 'lemma:pv_alll_sub', 'lemma:pv_anyl_snoc', 'lemma:pv_anyl_snoc2']
 
 PLANS = {
     'C01': dict(
@@ -204,7 +205,7 @@ PLANS = {
                 ['smt.veriT.verit_macro.macro__verit_%s.eval' % r for r in C18_RULES],
         # not_and needs ~75 s for one invariant obligation: thorough tier only (budget 120 s per obligation)
         thorough_targets=['smt.veriT.verit_macro.macro__verit_not_and.eval'],
-        bounded=['bounded.c18_verit.run', 'bounded.c18_contracts.run'], level='proof', timeout_ms=60000, feas_reduced=True,
+        bounded=['bounded.c18_verit.run', 'bounded.c18_contracts.run'], level='proof', timeout_ms=60000, feas_reduced=True, seq_in_spec={'Term': 'meml'},
         native_per_fn={'quick': 0, 'thorough': 0},
         rule='see coverage.bounded[0].rule',
         assumptions=COMMON_ASSUMPTIONS + [
